@@ -13,6 +13,7 @@ import (
 
 	_ "verif/harness/c05"
 	_ "verif/harness/c20"
+	_ "verif/harness/reactiveh"
 )
 
 func find(prop, name string) []*reg.Harness {
@@ -59,6 +60,12 @@ func main() {
 				b = 2
 				if *tier == "thorough" {
 					b = 3
+				}
+				if h.Bounds[0] > 0 && *tier != "thorough" {
+					b = h.Bounds[0]
+				}
+				if h.Bounds[1] > 0 && *tier == "thorough" {
+					b = h.Bounds[1]
 				}
 			}
 			o := explore.Options{Property: h.Property, Harness: h.Name, Tier: *tier, Bound: b, Shard: *shard, NShards: *nshards, OutDir: *outDir}
